@@ -38,6 +38,7 @@ UpTo(S, n) == UNION {Concats(S, k) : k \in 0..n}
 NumData(st) == Cardinality({i \in 1..Len(st) : IsDataOp(st[i].op)})
 Op(o) == [op |-> o, k |-> 0]
 Rd(k) == [op |-> "RD", k |-> k]
+Rl(k) == [op |-> "RL", k |-> k]
 
 NoCut == [frame |-> 0, part |-> "start", kind |-> "eof", with |-> FALSE, resume |-> FALSE]
 
@@ -47,8 +48,9 @@ HdrLen(f) == 2 + (IF f.lk # "n" THEN 8 ELSE IF f.nonmin THEN (IF f.len <= 125 TH
                   ELSE IF f.len <= 125 THEN 0 ELSE IF f.len <= 65535 THEN 2 ELSE 8)
              + (IF f.mk THEN 4 ELSE 0)
 
-Annotate(f, i, c, sw) ==
-  LET base == [op |-> f.op, fin |-> f.fin, r1 |-> f.r1, r2 |-> f.r2, r3 |-> f.r3, mk |-> f.mk,
+Annotate(f0, i, c, sw) ==
+  LET f == IF f0.len < 0 THEN [f0 EXCEPT !.len = 5] ELSE f0   \* "all but k bytes" of a compressed payload
+      base == [op |-> f.op, fin |-> f.fin, r1 |-> f.r1, r2 |-> f.r2, r3 |-> f.r3, mk |-> f.mk,
                len |-> f.len, lk |-> f.lk, min |-> ~f.nonmin,
                code |-> f.code, utf8 |-> (f.rs # "bad"), plain |-> f.plain, comp |-> (f.comp # "")]
       huge == f.lk # "n"
@@ -126,6 +128,7 @@ Step ==
        [] o.op = "RD" -> DoRD(o.k)
        [] o.op = "RF" -> DoRA(s, hist, "RF")
        [] o.op = "RA" -> DoRA(s, hist, "RA")
+       [] o.op = "RL" -> DoRA(s, hist, "RA")
        [] o.op = "RM" -> DoRM
   /\ pc' = pc + 1
   /\ UNCHANGED << cfg, fr, prog, cut >>
